@@ -122,6 +122,15 @@ pub fn subs() -> Vec<Box<dyn AnySub>> {
             strat: || (plan(PlanOpts::default()), mutation()).prop_map(|(plan, mutation)| Mutated { plan, mutation }).boxed(),
             check: check_mutated,
         }),
+        // state carried from one validation to the next on the same thread (a remembered key, scope or
+        // canonical form) must not let the edited twin of a request that has just been accepted through
+        Box::new(Sub {
+            name: "accepted-original-then-edited-twin",
+            quick: 25_000,
+            thorough: 400_000,
+            strat: || (plan(PlanOpts::default()), mutation()).prop_map(|(plan, mutation)| Mutated { plan, mutation }).boxed(),
+            check: check_primed_mutated,
+        }),
         Box::new(Sub {
             name: "blind",
             quick: 10_000,
@@ -506,6 +515,21 @@ pub fn check_mutated(mc: &Mutated, cc: &mut CaseCtx) -> CheckResult {
         cc.class("mutation-not-applicable");
         return Ok(());
     };
+    soundness(&case, label(&mc.mutation), cc)
+}
+
+/// The unedited request first (same thread, immediately before), then its edited twin.
+pub fn check_primed_mutated(mc: &Mutated, cc: &mut CaseCtx) -> CheckResult {
+    let Ok(built) = mc.plan.build() else {
+        cc.class("unsignable");
+        return Ok(());
+    };
+    let Some(case) = apply(&mc.mutation, &mc.plan, &built) else {
+        cc.class("mutation-not-applicable");
+        return Ok(());
+    };
+    let mut scratch = CaseCtx::default();
+    soundness(&built.case, "primer", &mut scratch)?;
     soundness(&case, label(&mc.mutation), cc)
 }
 
